@@ -428,7 +428,11 @@ func (gen *generator) irIFunc(new *ir.IFunc, old *ast.IndirectSymbolDef) error {
 	}
 	// Content type: handled in newGlobalEntity.
 	// Resolver.
-	resolver, err := gen.irIndirectSymbol(new.Typ, old.IndirectSymbol())
+	//
+	// The resolver of an ifunc is a function returning a pointer to the ifunc
+	// content type.
+	resolverType := types.NewPointer(types.NewFunc(new.Typ))
+	resolver, err := gen.irIndirectSymbol(resolverType, old.IndirectSymbol())
 	if err != nil {
 		return errors.WithStack(err)
 	}
